@@ -1181,6 +1181,10 @@ where
 
 	// Step 5: Cancel any transactions with an expired TTL
 	for tx in txs {
+		// confirmed by the kernel lookup above: there is nothing left to cancel
+		if tx.confirmed {
+			continue;
+		}
 		if let Some(e) = tx.ttl_cutoff_height {
 			if tip.0 >= e {
 				wallet_lock!(wallet_inst, w);
